@@ -440,8 +440,7 @@ impl Chunk {
         check_chunk_bytes(chunk_size, *bytes_available)?;
 
         let chunk_data_bytes = chunk_size as usize - CHUNK_HEADER_SIZE;
-        let mut data = vec![0_u8; chunk_data_bytes];
-        reader.read_exact(&mut data)?;
+        let data = reader.read_vec(chunk_data_bytes)?;
         *bytes_available -= chunk_size as i64;
         Ok(Chunk { chunk_type, data })
     }
